@@ -1,48 +1,19 @@
-(* Model of proximal.py:validate_constraints (the decision logic of proximal_operator): which constraint and which parameter
-   end up on the selected mode.  Constraints are numbered in the code's fixed registration order
-     0 non_negative, 1 l1_reg, 2 l2_reg, 3 l2_square_reg, 4 unimodality, 5 normalize, 6 simplex, 7 normalized_sparsity,
-     8 soft_sparsity, 9 smoothness, 10 monotonicity, 11 hard_sparsity.
-   A keyword argument is a dict {mode: parameter}, a list [parameter or None per mode] or a scalar (all modes); falsy
-   arguments are never passed by the harness.  Definitions only. *)
-From Coq Require Import List Arith Bool.
+(* Glue between proximal_operator's keyword arguments and the operators of Model/Prox.v.
+   The decision logic itself (validate_constraints: truthiness, dict / list / scalar values, Python int keys incl. negative ones,
+   the ValueError branches) is NOT modelled here: the authoritative model is C11's Model/Constraints.v (zvalidate, theorem
+   C11_validate_order); this file only says how the keywords a caller wrote are presented to it.  Definitions only. *)
+From Coq Require Import List QArith Bool.
+From TLV Require Import Base.Tensor.
+From TLV Require Model.Constraints.
 Import ListNotations.
 
-Section Dispatch.
-Context {P : Type}.
-Inductive cspec := CDict (entries : list (nat * P)) | CList (entries : list (option P)) | CScalar (p : P).
-
-Definition table := list (option (nat * P)).      (* constraints[i], parameters[i] *)
-Fixpoint set_at (i : nat) (x : option (nat * P)) (t : table) : table :=
-  match t, i with [] , _ => [] | _ :: r, O => x :: r | y :: r, S j => y :: set_at j x r end.
-(* registrer_constraint *)
-Fixpoint reg_list (c : nat) (i : nat) (l : list (option P)) (t : table) : table :=
-  match l with [] => t | e :: r => reg_list c (S i) r (match e with Some p => set_at i (Some (c, p)) t | None => t end) end.
-Definition register (t : table) (cs : nat * cspec) : table :=
-  let (c, s) := cs in
-  match s with
-  | CDict es => fold_left (fun t (mp : nat * P) => set_at (fst mp) (Some (c, snd mp)) t) es t
-  | CList l => reg_list c 0 l t
-  | CScalar p => map (fun _ => Some (c, p)) t
-  end.
-(* the keyword arguments are visited in the fixed order of the constraint numbers, whatever order the caller wrote them in *)
-Fixpoint insert_c (x : nat * cspec) (l : list (nat * cspec)) : list (nat * cspec) :=
-  match l with [] => [x] | y :: r => if Nat.leb (fst x) (fst y) then x :: y :: r else y :: insert_c x r end.
-Definition sort_c (l : list (nat * cspec)) : list (nat * cspec) := fold_right insert_c [] l.
-Definition validate (n_const order : nat) (specs : list (nat * cspec)) : option (nat * P) :=
-  nth order (fold_left register (sort_c specs) (repeat None n_const)) None.
-
-(* the modes a keyword argument registers *)
-Definition modes_of (n_const : nat) (s : cspec) : list nat :=
-  match s with
-  | CDict es => map fst es
-  | CList l => map fst (filter (fun ie : nat * option P => match snd ie with Some _ => true | None => false end) (combine (seq 0 (length l)) l))
-  | CScalar _ => seq 0 n_const
-  end.
-Definition param_at (s : cspec) (mode : nat) : option P :=
-  match s with
-  | CDict es => match find (fun mp : nat * P => Nat.eqb (fst mp) mode) (rev es) with Some mp => Some (snd mp) | None => None end
-  | CList l => nth mode l None
-  | CScalar p => Some p
-  end.
-End Dispatch.
-Arguments cspec P : clear implicits.
+Definition qtruthy (q : Q) : bool := negb (Qeq_bool q 0).       (* bool(parameter) *)
+Definition kwargs := list (Constraints.kind * @Constraints.zspec Q).
+(* the value the caller wrote for keyword k (None if not written); the code visits the twelve keywords in its own fixed order,
+   so the order in which they were written is irrelevant *)
+Definition spec_of (specs : kwargs) (k : Constraints.kind) : @Constraints.zspec Q :=
+  match find (fun ks : Constraints.kind * @Constraints.zspec Q => Constraints.kind_eqb k (fst ks)) specs with
+  | Some ks => snd ks | None => Constraints.ZNone end.
+(* validate_constraints with the written keywords, n_const = n, order = order: Ok (Some (kind, parameter)) | Ok None | Err (raises) *)
+Definition validate_kwargs (n order : nat) (specs : kwargs) : res (option (Constraints.kind * Q)) :=
+  Constraints.zvalidate qtruthy n (Constraints.zkeywords (spec_of specs)) order.
